@@ -110,12 +110,24 @@ def rand_cfg(ctx, pred, ref):
         return E.mk_cfg(it, metrics, decision=dec)
     mm = rng.choice(["IOU", "IOU", "DSC", "ASSD"])
     thr = rng.choice(GRID[mm])
-    if mm != "ASSD" and rng.random() < 0.2:
+    if mm != "ASSD" and rng.random() < 0.3:
         ov = oracle.overlap_pairs(pred, ref)
         if ov and it == "UNMATCHED":
             r, p = rng.choice(ov)
             sc = oracle.mask_score(mm, ref == r, pred == p)
             thr = (sc.numerator, sc.denominator)
+            if rng.random() < 0.5:
+                tf = math.nextafter(float(sc), math.inf)        # one float beyond the score: must not match
+                if 0.0 < tf <= 1.0:
+                    thr = tf.as_integer_ratio()
+    if dec is not None and dec[0] != "ASSD" and it == "MATCHED" and rng.random() < 0.5:
+        labs = sorted((set(np.unique(pred).tolist()) & set(np.unique(ref).tolist())) - {0})
+        if labs:
+            l = rng.choice(labs)
+            sc = oracle.mask_score(dec[0], ref == l, pred == l)
+            tf = math.nextafter(float(sc), math.inf) if rng.random() < 0.5 else float(sc)
+            if 0.0 < tf <= 1.0:
+                dec = [dec[0], {"q": list(tf.as_integer_ratio())}]
     return E.mk_cfg(it, metrics, matcher=E.naive(mm, thr), decision=dec,
                     backend=rng.choice([None, None, "cc3d", "scipy"]) if it == "SEMANTIC" else None)
 
